@@ -16,15 +16,70 @@ def optTok : Option Str → String
   | none => "!"
   | some s => sTok s
 
-def optInt (t : String) : Option (Option Int) := if t = "!" then some none else t.toInt?.map some
+/-! ### floats: exact ratios + the oracle table the harness declares (`fdecl …` lines, as in the C08 driver) -/
 
-/-- `decl <svc> <name> <dtype> <min|!> <max|!> <allowed,…|~>` (after the keyword) -/
+def Fl.le : Fl → Fl → Bool
+  | .nan, _ => false
+  | _, .nan => false
+  | .inf true, _ => true
+  | _, .inf false => true
+  | .inf false, _ => false
+  | _, .inf true => false
+  | .fin n a b, .fin n' a' b' =>
+      let x : Int := if n then -(Int.ofNat (a * b')) else Int.ofNat (a * b')
+      let y : Int := if n' then -(Int.ofNat (a' * b)) else Int.ofNat (a' * b)
+      x ≤ y
+
+structure FTab where
+  reprs : List (Fl × Str) := []
+  parses : List (Str × Option Fl) := []
+
+/-- what Python's `float(s)` / `repr(x)` gave for the strings / floats of this case -/
+def FTab.oracle (t : FTab) : FloatOracle where
+  ops :=
+    { repr := fun x => match t.reprs.find? (·.1 == x) with
+        | some p => p.2
+        | none => "?undeclared-float".toList
+      parse := fun s => match t.parses.find? (·.1 == s) with
+        | some p => p.2
+        | none => none
+      le := Fl.le
+      eq := fun a b => Fl.le a b && Fl.le b a }
+
+def parseFl (t : String) : Option Fl :=
+  if t = "nan" then some .nan
+  else if t = "inf" then some (.inf false)
+  else if t = "-inf" then some (.inf true)
+  else
+    let (neg, r) := if t.startsWith "-" then (true, (t.drop 1).toString) else (false, t)
+    match r.splitOn "/" with
+    | [a, b] => do let x ← a.toNat?; let y ← b.toNat?; pure (.fin neg x y)
+    | _ => none
+
+def fmtFl : Fl → String
+  | .nan => "f:nan"
+  | .inf n => if n then "f:-inf" else "f:inf"
+  | .fin n a b => s!"f:{if n then "-" else ""}{a}/{b}"
+
+/-- `fdecl parse <strhex> <ratio|!>` / `fdecl repr <ratio> <strhex>` (after the keyword) -/
+def FTab.add (t : FTab) : List String → Option FTab
+  | ["parse", s, r] => do
+      let s ← tokS s
+      let v ← if r = "!" then some none else (parseFl r).map some
+      pure { t with parses := t.parses ++ [(s, v)] }
+  | ["repr", f, s] => do pure { t with reprs := t.reprs ++ [((← parseFl f), (← tokS s))] }
+  | _ => none
+
+def optText (t : String) : Option (Option Str) := if t = "~" then some none else (tokS t).map some
+
+/-- `decl <svc> <name> <dtype> <range 0|1> <min|~> <max|~> <allowed ~|[]|hex,hex…>` (after the keyword) -/
 def parseDecl : List String → Option (Nat × Decl)
-  | [svc, name, dt, mn, mx, al] => do
+  | [svc, name, dt, rg, mn, mx, al] => do
       let i ← svc.toNat?; let name ← tokS name; let dt ← tokS dt
-      let mn ← optInt mn; let mx ← optInt mx
-      let al ← if al = "~" then some [] else (al.splitOn ",").mapM tokS
-      pure (i, { name := name, dtype := dt, min := mn, max := mx, allowed := al })
+      let mn ← optText mn; let mx ← optText mx
+      let al : Option (List Str) ←
+        if al = "~" then some none else if al = "[]" then some (some []) else ((al.splitOn ",").mapM tokS).map some
+      pure (i, { name := name, dtype := dt, range := if rg = "1" then some (mn, mx) else none, allowed := al })
   | _ => none
 
 def addDecl (decls : List (List Decl)) (i : Nat) (d : Decl) : List (List Decl) :=
@@ -50,35 +105,67 @@ def parseBody (t : String) : Option Body :=
 /-- `<nt|!> <nts|!> <sid|!> <body>` -/
 def parseNotify : List String → Option Notify
   | [nt, nts, sid, body] => do
-      pure { hdrs := { nt := (← tokOpt nt), nts := (← tokOpt nts), sid := (← tokOpt sid) }, body := (← parseBody body) }
+      let hdrs : NHeaders := { nt := (← tokOpt nt), nts := (← tokOpt nts), sid := (← tokOpt sid) }
+      if body = "#" then pure { hdrs := hdrs, body := [], malformed := true }    -- a body that is not XML
+      else pure { hdrs := hdrs, body := (← parseBody body) }
   | _ => none
 
-def fmtVal : Option Val → String
-  | none => "!"
-  | some (.vint i) => s!"i{i}"
-  | some (.vbool b) => if b then "bT" else "bF"
-  | some (.vstr s) => s!"s{sTok s}"
+def fmtNats (l : List Nat) : String := ".".intercalate (l.map toString)
+def fmtOff : Option Int → String
+  | none => ""
+  | some o => s!"@{o}"
 
-def parseVal (t : String) : Option (Option Val) :=
-  if t = "!" then some none
-  else if t = "bT" then some (some (.vbool true))
-  else if t = "bF" then some (some (.vbool false))
-  else match t.toList with
-    | 'i' :: r => (String.ofList r).toInt?.map fun i => some (.vint i)
-    | 's' :: r => (tokS (String.ofList r)).map fun s => some (.vstr s)
-    | _ => none
+def fmtVal : Val → String
+  | .none => "none"
+  | .int i => s!"i:{i}"
+  | .bool b => if b then "b:1" else "b:0"
+  | .float f => fmtFl f
+  | .str s => "s:" ++ sTok s
+  | .date d => "d:" ++ fmtNats [d.y, d.m, d.d]
+  | .datetime d t o => "dt:" ++ fmtNats [d.y, d.m, d.d, t.h, t.mi, t.s] ++ fmtOff o
+  | .time t o => "t:" ++ fmtNats [t.h, t.mi, t.s] ++ fmtOff o
+
+def splitOff (s : String) : Option (String × Option Int) :=
+  match s.splitOn "@" with
+  | [a] => some (a, none)
+  | [a, o] => o.toInt?.map fun x => (a, some x)
+  | _ => none
+
+def parseNats (s : String) : Option (List Nat) := (s.splitOn ".").mapM (·.toNat?)
+
+def parseVal (t : String) : Option Val :=
+  if t = "none" then some .none
+  else match t.splitOn ":" with
+  | ["i", x] => x.toInt?.map .int
+  | ["b", x] => if x = "1" then some (.bool true) else if x = "0" then some (.bool false) else none
+  | ["f", x] => (parseFl x).map .float
+  | ["s", x] => (tokS x).map .str
+  | ["d", x] => match parseNats x with
+      | some [y, m, d] => some (.date ⟨y, m, d⟩)
+      | _ => none
+  | ["dt", x] => do
+      let (a, o) ← splitOff x
+      match parseNats a with
+      | some [y, m, d, h, mi, s] => some (.datetime ⟨y, m, d⟩ ⟨h, mi, s⟩ o)
+      | _ => none
+  | ["t", x] => do
+      let (a, o) ← splitOff x
+      match parseNats a with
+      | some [h, mi, s] => some (.time ⟨h, mi, s⟩ o)
+      | _ => none
+  | _ => none
 
 def fmtTick : Option Nat → String
   | none => "!"
   | some n => toString n
 
-/-- `name:val:upd,…` -/
+/-- `name=val=upd,…` -/
 def fmtVarObs (l : List VarObs) : String :=
-  if l.isEmpty then "~" else ",".intercalate (l.map fun o => s!"{sTok o.1}:{fmtVal o.2.1}:{fmtTick o.2.2}")
+  if l.isEmpty then "~" else ",".intercalate (l.map fun o => s!"{sTok o.1}={fmtVal o.2.1}={fmtTick o.2.2}")
 
 def parseVarObs (t : String) : Option (List VarObs) :=
   if t = "~" then some [] else
-  (t.splitOn ",").mapM fun x => match x.splitOn ":" with
+  (t.splitOn ",").mapM fun x => match x.splitOn "=" with
     | [a, b, c] => do
         let n ← tokS a; let v ← parseVal b
         let u ← if c = "!" then some none else c.toNat?.map some
@@ -93,12 +180,26 @@ def parseEvents (t : String) : Option (List (List Str)) :=
   if t = "~" then some [] else
   (t.splitOn "|").mapM fun x => if x = "-" then some [] else (x.splitOn ",").mapM tokS
 
+def fmtErr : Upnp.C08.Err → String
+  | .valueError => "RAW:ValueError"
+  | .typeError => "RAW:TypeError"
+  | .indexError => "RAW:IndexError"
+  | .attributeError => "RAW:AttributeError"
+  | .unmodelled => "UNMODELLED"
+  | .other => "OTHER"
+
 def fmtNRes : NRes → String
   | .status n => s!"status {n}"
   | .keyError => "exc RAW:KeyError"
+  | .raised e => s!"exc {fmtErr e}"
+  | .parseError => "exc RAW:ParseError"
 
 def parseNRes : List String → NRes
   | ["status", n] => .status n.toNat!
-  | _ => .keyError
+  | ["exc", "RAW:ParseError"] => .parseError
+  | ["exc", "RAW:KeyError"] => .keyError
+  | ["exc", "RAW:IndexError"] => .raised .indexError
+  | ["exc", "RAW:TypeError"] => .raised .typeError
+  | _ => .raised .other
 
 end Upnp.C10Proto
